@@ -11,13 +11,14 @@ LEVEL = "model_checking"
 FIXSTATE = "TRUE"     # the Reader on this tree keeps esc/partial state across calls (fix: commit)
 
 
-def cfg(alphabet, maxlen, maxpkts, frames, zero, maxcuts, emit):
+def cfg(alphabet, maxlen, maxpkts, frames, zero, maxcuts, idle=1, emit=False):
     return """CONSTANTS
   Alphabet = {%s}
   MaxLen = %d
   MaxPkts = %d
   Frames = {%s}
   ZeroReads = %s
+  IdlePolls = %d
   MaxCuts = %d
   FixState = %s
   Emit = %s
@@ -25,7 +26,7 @@ INIT Init
 NEXT Next
 INVARIANTS DeliveredIsSent
 """ % (",".join(map(str, alphabet)), maxlen, maxpkts, ",".join(map(str, frames)), "TRUE" if zero else "FALSE",
-       maxcuts, FIXSTATE, "TRUE" if emit else "FALSE")
+       idle, maxcuts, FIXSTATE, "TRUE" if emit else "FALSE")
 
 
 # END, ESC, ESC_END, ESC_ESC, ASCII, a UTF-8 continuation byte, LF, NUL, a 3-byte lead, 0xFF
@@ -44,12 +45,19 @@ def configs(thorough):
             ("mux/zero-reads", A_MUX, 4, 1, [10, 169, 998, 7], True, 2),   # frame types 192, 219 and 0 are skipped by design: outside the domain
             ("mux/2-packets", A_MUX[:5] + [69], 2, 2, [10, 998, 7], True, 1),
             ("mux/coap-2-packets", [192, 219, 65], 4, 2, [169], True, 1),
+            ("plain/idle-polls", A_PLAIN[:7], 2, 2, [999], True, 2, 2),
+            ("plain/3-idle-polls", A_PLAIN[:5], 2, 2, [999], True, 2, 3),
+            ("mux/idle-polls", A_MUX[:5] + [69], 2, 2, [10, 998, 7], True, 1, 2),
+            ("mux/coap-idle-polls", [192, 219, 65], 4, 2, [169], True, 1, 2),
         ]
     return [
         ("plain/zero-reads", A_PLAIN[:7], 2, 2, [999], True, 2),
         ("plain/blocking", A_PLAIN, 3, 1, [999], False, 1),
         ("mux/zero-reads", A_MUX[:7], 4, 1, [10, 169, 998], True, 1),
         ("mux/2-packets", [192, 219, 65, 69], 2, 2, [10, 998], True, 1),
+        # a poll loop on an idle transport: every chunk boundary shows as two consecutive empty reads (added after seed C25-2)
+        ("plain/idle-polls", A_PLAIN[:5], 2, 2, [999], True, 2, 2),
+        ("mux/idle-polls", [192, 219, 65, 69], 2, 2, [10, 998], True, 1, 3),
     ]
 
 
@@ -63,7 +71,7 @@ def run(chk):
     b = common.go_build("net")
     thorough = chk.tier == "thorough"
     chk.assume("payloads are non-empty; SLIPMUX frame types are valid ones (invalid types are skipped by design), CoAP payloads >= 4 bytes, an IP frame's type is its first payload byte")
-    chk.assume("zero-reads mode: a chunk boundary is visible to the reader as one read returning (0, nil); the client concatenates prefixes as SlipMuxReader does")
+    chk.assume("zero-reads mode: a chunk boundary is visible to the reader as IdlePolls (1, 2 or 3) consecutive reads returning (0, nil); the client concatenates prefixes as SlipMuxReader does")
     d = common.subdir("c25")
     sample_done = False
 
